@@ -104,7 +104,7 @@ fn main() {
             let size: usize = args.get(3).and_then(|s| s.parse().ok()).unwrap_or(20);
             let mut rng = rng::Rng::new(seed);
             let prog = gen::gram::generate(&mut rng, gen::gram::GramOpts { size, extended: std::env::var_os("GEN_EXTENDED").is_some(), ..Default::default() });
-            let lay = gen::layout::Layout::build(&prog, &mut rng, &(if std::env::var_os("GEN_PLAIN").is_some() { gen::layout::DecoOpts::none() } else { gen::layout::DecoOpts::light() }), false, "  ");
+            let lay = gen::layout::Layout::build(&prog, &mut rng, &gen::layout::DecoOpts { inline_cond: std::env::var("GEN_INLINE_COND").ok().and_then(|v| v.parse().ok()).unwrap_or(0), ..(if std::env::var_os("GEN_PLAIN").is_some() { gen::layout::DecoOpts::none() } else { gen::layout::DecoOpts::light() }) }, false, "  ");
             print!("{}", lay.render());
         }
         _ => usage(),
